@@ -15,7 +15,7 @@ Qed.
 Lemma copies_in : forall rid tr t m, In (t, m) (copies rid tr) <-> In (OSend t m) tr /\ m_rid m = rid.
 Proof.
   induction tr as [|x tr IH]; intros t m; cbn; [tauto|].
-  destruct x as [t' m'| | |]; try (rewrite IH; split; [intros [H1 H2]; auto | intros [[H|H] H2]; [discriminate|auto]]).
+  destruct x as [t' m'| | | | |]; try (rewrite IH; split; [intros [H1 H2]; auto | intros [[H|H] H2]; [discriminate|auto]]).
   destruct (m_rid m' =? rid) eqn:E; cbn; rewrite IH.
   - apply Z.eqb_eq in E. split; [intros [H|[H1 H2]]; [inv H; auto | auto] | intros [[H|H] H2]; [inv H; auto | auto]].
   - apply Z.eqb_neq in E. split; [intros [H1 H2]; auto | intros [[H|H] H2]; [inv H; congruence | auto]].
@@ -35,22 +35,37 @@ Definition timers_ok (st : state) (rid : Z) (m : message) (T0 t : Z) (n : nat) :
     h_timeout (e_timer e) = t * 2 ^ h_counter (e_timer e) /\
     h_due (e_timer e) = T0 + t * (2 ^ (h_counter (e_timer e) + 1) - 1).
 
-(* [ks]: the (remote, mid) pairs of all ACK / RST datagrams received so far *)
+(* [ks]: the (remote, mid) pairs of all ACK / RST / piggy-backed-response datagrams received so far; plus [err_key r] for every
+   transport error reported for r, and [gone_key rid] for every request that was cancelled or got a response *)
+Definition err_key (r : Z) : Z * Z := (r, -1).
+Definition gone_key (rid : Z) : Z * Z := (rid, -2).
 Definition Good (ks : list (Z * Z)) (st : state) (tr : list output) (rid : Z) : Prop :=
   exists m T0 t n,
     copies rid tr = sched_of m T0 t n /\
     (n <> O -> m_rid m = rid /\ range (m_tuning m) t /\ Z.of_nat n <= MAX_RETRANSMIT (m_tuning m) + 1) /\
     timers_ok st rid m T0 t n /\
     (in_backlog rid st -> n = O) /\
-    (n <> O -> (exists e, In e (active_exchanges st) /\ e_rid e = rid) \/ In (m_remote m, m_mid m) ks \/
+    (n <> O -> (exists e, In e (active_exchanges st) /\ e_rid e = rid) \/ In (m_remote m, m_mid m) ks \/ In (err_key (m_remote m)) ks \/
                (Z.of_nat n = MAX_RETRANSMIT (m_tuning m) + 1 /\
-                In (OFail (T0 + t * (2 ^ (MAX_RETRANSMIT (m_tuning m) + 1) - 1)) rid ConRetransmitsExceeded) tr)).
+                (In (OFail (T0 + t * (2 ^ (MAX_RETRANSMIT (m_tuning m) + 1) - 1)) rid ConRetransmitsExceeded) tr \/ In (gone_key rid) ks))).
 
 Definition Hist (seen : list Z) (ks : list (Z * Z)) (st : state) (tr : list output) : Prop :=
   (forall rid, ~ In rid seen -> copies rid tr = []) /\ forall rid, Good ks st tr rid.
 
 Definition ks_after (ks : list (Z * Z)) (e : event) : list (Z * Z) :=
-  match e with ERecv r _ mid => (r, mid) :: ks | _ => ks end.
+  match e with
+  | ERecv r _ mid => (r, mid) :: ks
+  | EError r => err_key r :: ks
+  | ECancel rid => gone_key rid :: ks
+  | EResponse r ty mid rid => gone_key rid :: (r, mid) :: ks
+  | _ => ks
+  end.
+
+(* a request whose message is in an exchange or in a backlog is still pending in the token manager, unless it was cancelled
+   or answered *)
+Definition Pend (ks : list (Z * Z)) (st : state) : Prop :=
+  (forall e, In e (active_exchanges st) -> In (e_rid e, e_remote e) (outgoing_requests st) \/ In (gone_key (e_rid e)) ks) /\
+  (forall r q p, In (r, q) (backlogs st) -> In p q -> In (m_rid (fst p), r) (outgoing_requests st) \/ In (gone_key (m_rid (fst p))) ks).
 
 Lemma good_frame : forall ks ks' st st' tr o rid, Good ks st tr rid -> copies rid o = [] ->
   (forall e, In e (active_exchanges st') -> e_rid e = rid -> In e (active_exchanges st)) ->
@@ -61,10 +76,12 @@ Proof.
   exists m, T0, t, n. splits; auto.
   - rewrite copies_app, Ho, app_nil_r. exact Hc.
   - intros e He Hr. apply Ht; auto.
-  - intros Hn0. destruct (Hcl Hn0) as [[e [He1 He2]]|[Hin|[Hx Hin]]].
+  - intros Hn0. destruct (Hcl Hn0) as [[e [He1 He2]]|[Hin|[Hin|[Hx [Hin|Hin]]]]].
     + left. exists e. auto.
     + right. left. auto.
-    + right. right. split; auto. apply in_app_iff. auto.
+    + right. right. left. auto.
+    + right. right. right. split; auto. left. apply in_app_iff. auto.
+    + right. right. right. split; auto.
 Qed.
 
 (* a message put on the wire for the first time ([_send_initially]) *)
@@ -86,37 +103,39 @@ Qed.
 Lemma request_shape : forall seen st rid r tn st' o, Struct seen st -> ~ In rid seen -> wf_tuning tn ->
   tm_request st rid r tn = (st', o) ->
   let m := {| m_remote := r; m_mid := message_id st; m_rid := rid; m_tuning := tn |} in
-  (exists q, qget r (backlogs st) = Some q /\ o = [] /\ active_exchanges st' = active_exchanges st /\
+  outgoing_requests st' = outgoing_requests st ++ [(rid, r)] /\
+  ((exists q, qget r (backlogs st) = Some q /\ o = [] /\ active_exchanges st' = active_exchanges st /\
              backlogs st' = qset r (q ++ [(m, rid)]) (backlogs st)) \/
   (qget r (backlogs st) = None /\ (forall e, In e (active_exchanges st) -> e_remote e <> r) /\ exists t sq, range tn t /\
      o = [ODraw (now st) (ACK_TIMEOUT tn) (ACK_TIMEOUT tn * ARF_num tn / ARF_den tn) t; OSend (now st) m] /\
      active_exchanges st' = xset (r, message_id st) (rid, {| h_due := now st + t; h_seq := sq; h_message := m; h_timeout := t; h_counter := 0 |}) (active_exchanges st) /\
-     (forall x, In x (back_rids (backlogs st')) -> In x (back_rids (backlogs st)))).
+     (forall x, In x (back_rids (backlogs st')) -> In x (back_rids (backlogs st))) /\
+     (forall b, In b (backlogs st') -> In b (backlogs st) \/ b = (r, [])))).
 Proof.
   intros seen st rid r tn st' o S Hfresh Hwf H m.
   unfold tm_request, send_message, _next_message_id in H. proj. fold m in H.
   set (st0 := {| now := now st; next_seq := next_seq st; message_id := Z.land 65535 (1 + message_id st); active_exchanges := active_exchanges st;
-                 backlogs := backlogs st; outgoing_requests := outgoing_requests st ++ [(rid, r)]; rng := rng st |}) in *.
+                 backlogs := backlogs st; outgoing_requests := outgoing_requests st ++ [(rid, r)]; rng := rng st; refusing := refusing st |}) in *.
   assert (S0 : Struct (rid :: seen) st0).
   { apply (struct_frame (rid :: seen) st); auto; try reflexivity; try (cbn; lia).
-    - eapply struct_seen_mono; [|exact S]. intros x Hx. right. exact Hx.
-    - cbn. intros x Hx. apply in_app_iff. auto. }
+    eapply struct_seen_mono; [|exact S]. intros x Hx. right. exact Hx. }
   destruct (qget r (backlogs st)) as [q|] eqn:Q.
   - assert (HX : has_exchange_with st0 r = true).
     { rewrite <- (s_nstart _ _ S0). unfold in_backlogs. cbn. rewrite Q. reflexivity. }
     change (has_exchange_with st r) with (has_exchange_with st0 r) in H. rewrite HX in H. inv H.
-    left. exists q. splits; auto.
+    split; [reflexivity|]. left. exists q. splits; auto.
   - assert (HX : has_exchange_with st0 r = false).
     { rewrite <- (s_nstart _ _ S0). unfold in_backlogs. cbn. rewrite Q. reflexivity. }
-    right. split; auto. split; [apply (proj1 (has_exchange_false st0 r) HX)|].
     apply (send_initially_struct (rid :: seen)) in H; auto; try (destruct S0; auto; fail).
-    + destruct H as (S' & t & Hrg & -> & E1 & E2 & E3 & E4). exists t, (next_seq st0). splits; auto.
-      intros x Hx. rewrite E4 in Hx. cbn [m_remote m] in Hx.
-      assert (in_backlogs st0 r = false) as IB by (unfold in_backlogs; cbn; rewrite Q; reflexivity). rewrite IB in Hx.
-      unfold qset in Hx. rewrite qdel_notin in Hx; [exact Hx|]. apply qget_none. exact Q.
+    + destruct H as (S' & t & Hrg & -> & E1 & E2 & E3 & E4). split; [exact E2|].
+      right. split; auto. split; [apply (proj1 (has_exchange_false st0 r) HX)|].
+      assert (in_backlogs st0 r = false) as IB by (unfold in_backlogs; cbn; rewrite Q; reflexivity).
+      cbn [m_remote m] in E4. rewrite IB in E4. unfold qset in E4. rewrite qdel_notin in E4 by (apply qget_none; exact Q).
+      exists t, (next_seq st0). splits; auto.
+      * intros x Hx. rewrite E4 in Hx. exact Hx.
+      * intros b Hb. rewrite E4 in Hb. destruct Hb as [<-|Hb]; auto.
     + constructor; [|apply (s_live _ _ S0)]. intros Hin. apply Hfresh. eapply live_rids_seen; [exact S|]. exact Hin.
     + cbn. auto.
-    + cbn. apply in_app_iff. right. left. reflexivity.
 Qed.
 
 Lemma live_exch_seen : forall seen st e, Struct seen st -> In e (active_exchanges st) -> In (e_rid e) seen.
@@ -130,7 +149,7 @@ Proof.
   intros seen ks st tr rid r tn st' o S [Hun Hg] Hfresh Hwf H.
   pose proof (request_shape _ _ _ _ _ _ _ S Hfresh Hwf H) as Sh. cbv zeta in Sh.
   set (m := {| m_remote := r; m_mid := message_id st; m_rid := rid; m_tuning := tn |}) in *.
-  destruct Sh as [(q & Q & -> & Ex & Eb)|(Q & Hno & t & sq & Hrg & -> & Ex & Eb)].
+  destruct Sh as (Eo & [(q & Q & -> & Ex & Eb)|(Q & Hno & t & sq & Hrg & -> & Ex & Eb & Ebl)]).
   - (* put into the backlog *)
     split.
     + intros x Hx. rewrite app_nil_r. apply Hun. intros Hi. apply Hx. right. exact Hi.
@@ -170,14 +189,12 @@ Lemma hist_recv : forall seen ks st tr r mid b st' o, Struct seen st -> Hist see
 Proof.
   intros seen ks st tr r mid b st' o S [Hun Hg] H.
   assert (Hincl : incl ks ((r, mid) :: ks)) by (intros x Hx; right; exact Hx).
-  destruct (recv_shape _ _ _ _ _ _ _ S H) as [(X & -> & ->)|(mon & h & st2 & o2 & X & -> & En & Er & Es & Ex & Eb & Eo & C)].
+  destruct (recv_shape _ _ _ _ _ _ _ S H) as [(X & -> & ->)|(mon & h & st2 & o1 & o2 & X & -> & Ho1c & _ & En & Er & Es & Ex & Eb & Enr & _ & _ & C)].
   - split; [intros x Hx; rewrite app_nil_r; auto|]. intros x. apply (good_frame ks _ st st tr [] x (Hg x)); auto.
   - destruct (pop_facts seen st _ mon h S X) as (Hin & Hok & Hmon & Hk & _ & Hrest & Hbr & Hnd & Hcnt). cbn [fst] in *.
-    change r with (fst (r, mid)) in C. eapply continue_after_pop in C; eauto.
-    2:{ intros p Hp Hf. rewrite Eo. destruct b; auto. apply filter_In. split; auto. apply negb_true_iff. apply Z.eqb_neq. exact Hf. }
+    change r with (fst (r, mid)) in C. apply (continue_after_pop seen st (r, mid) mon h st2 st' o2 S X En Er Ex Eb Enr) in C.
     destruct C as (S' & _ & _ & _ & q & Q & Hq). cbn [fst] in *.
-    set (o1 := if b then [OFail (now st) mon MessageError] else []).
-    assert (Ho1 : forall x, copies x o1 = []) by (intros x; unfold o1; destruct b; reflexivity).
+    assert (Ho1 : forall x, copies x o1 = []) by (intros x; destruct Ho1c as [->|[_ ->]]; reflexivity).
     (* Good for the closed exchange *)
     assert (Gmon : forall o2', copies mon o2' = [] -> (forall e, In e (active_exchanges st') -> e_rid e <> mon) ->
                    (forall x, In x (back_rids (backlogs st')) -> x <> mon) -> Good ((r, mid) :: ks) st' (tr ++ o1 ++ o2') mon).
@@ -243,16 +260,16 @@ Qed.
 Lemma pow2_succ : forall c, 0 <= c -> 2 ^ (c + 1) = 2 * 2 ^ c.
 Proof. intros. rewrite Z.pow_add_r by lia. lia. Qed.
 
-Lemma hist_retransmit : forall seen ks st tr e1 h st' o, Struct seen st -> Hist seen ks st tr ->
+Lemma hist_retransmit : forall seen ks st tr e1 h st' o, Struct seen st -> Hist seen ks st tr -> Pend ks st ->
   In e1 (active_exchanges st) -> e_timer e1 = h -> now st = h_due h ->
   _retransmit st h = (st', o) -> Hist seen ks st' (tr ++ o).
 Proof.
-  intros seen ks st tr e1 h st' o SS [Hun Hg] Hin Hh Hnow H.
+  intros seen ks st tr e1 h st' o SS [Hun Hg] [Hp1 Hp2] Hin Hh Hnow H.
   pose proof (retransmit_struct _ _ _ _ _ _ SS Hin Hh H) as Sh. cbv zeta in Sh.
   set (m := h_message h) in *. set (k := (m_remote m, m_mid m)) in *.
   destruct Sh as (S' & _ & En & X & Sh).
   destruct (pop_facts seen st k (m_rid m) h SS X) as (Hin1 & Hok & _ & _ & _ & Hrest & Hbr & Hnd & Hcnt).
-  unfold entry_ok in Hok. cbn [e_timer fst snd] in Hok. fold m in Hok. destruct Hok as (_ & _ & Hwf & Hc & _ & Hto & Hseen & Hout).
+  unfold entry_ok in Hok. cbn [e_timer fst snd] in Hok. fold m in Hok. destruct Hok as (_ & _ & Hwf & Hc & _ & Hto & Hseen).
   assert (Hother : forall x e, x <> m_rid m -> In e (active_exchanges st) -> e_rid e = x -> In e (xdel k (active_exchanges st))).
   { intros x e Hne He Hr. apply in_xdel. split; auto. intros Hk'. apply Hne. rewrite <- Hr.
     assert (e = (k, (m_rid m, h))) as -> by (apply (in_unique_map e_remote (active_exchanges st)); auto; [apply (s_ex_nodup _ _ SS)|unfold e_remote; rewrite Hk'; reflexivity]).
@@ -291,20 +308,63 @@ Proof.
         -- intros e He Hr. rewrite Ex in He. apply Hrest in He. tauto.
         -- intros Hi. exfalso. unfold in_backlog in Hi. rewrite Eb in Hi. apply (Hbr (m_rid m)); auto.
            apply (count_occ_In Z.eq_dec) in Hi. apply (count_occ_In Z.eq_dec). pose proof (cnt_qdel_le (backlogs st) (m_remote m) (m_rid m)). lia.
-        -- intros _. right. right. split; [lia|]. apply in_app_iff. right. unfold gave_up_outputs. apply in_map_iff.
+        -- intros _. right. right. right. split; [lia|]. destruct (Hp1 _ Hin1) as [Hout|Hgone]; [left|right; exact Hgone].
+           apply in_app_iff. right. unfold gave_up_outputs. apply in_map_iff.
            exists (m_rid m, m_remote m). split.
            ++ cbn [fst]. f_equal. rewrite Hnow, Hdue, Heq. reflexivity.
-           ++ apply filter_In. split; auto. cbn. apply Z.eqb_refl.
+           ++ apply filter_In. split; [exact Hout|]. cbn. apply Z.eqb_refl.
       * apply (good_frame ks ks st st' tr _ x (Hg x)); auto; [| | |apply incl_refl].
         -- intros e He Hr. rewrite Ex in He. apply Hrest in He. tauto.
         -- intros e He Hr. rewrite Ex. apply Hother with (x := x); auto.
         -- unfold in_backlog. rewrite Eb. intros Hi. apply (count_occ_In Z.eq_dec) in Hi. apply (count_occ_In Z.eq_dec). pose proof (cnt_qdel_le (backlogs st) (m_remote m) x). lia.
 Qed.
 
-Lemma step_hist : forall seen ks st tr e st' o, Struct seen st -> Hist seen ks st tr -> wf_event seen e -> step st e = (st', o) ->
+Lemma hist_same_exch : forall seen ks ks' st st' tr o, Hist seen ks st tr ->
+  active_exchanges st' = active_exchanges st -> backlogs st' = backlogs st -> (forall t m, ~ In (OSend t m) o) -> incl ks ks' ->
+  Hist seen ks' st' (tr ++ o).
+Proof.
+  intros seen ks ks' st st' tr o [Hun Hg] Ex Eb Ho Hk. assert (Hc : forall x, copies x o = []) by (intros x; apply copies_fail_only; exact Ho).
+  split.
+  - intros x Hx. rewrite copies_app, Hc, app_nil_r. auto.
+  - intros x. apply (good_frame ks ks' st st' tr o x (Hg x)); auto; try (rewrite Ex; auto; fail). unfold in_backlog. rewrite Eb. auto.
+Qed.
+
+(* a transport error for r: its exchanges and its backlog are gone, nothing is sent *)
+Lemma hist_error : forall seen ks st tr r st' o, Struct seen st -> Hist seen ks st tr -> mm_dispatch_error st r = (st', o) ->
+  Hist seen (err_key r :: ks) st' (tr ++ o).
+Proof.
+  intros seen ks st tr r st' o S [Hun Hg] H. destruct (error_struct _ _ _ _ _ S H) as (S' & _ & En & Ex & Eb & Eo & ->).
+  assert (Hc : forall x, copies x (map (fun q => OFail (now st) (fst q) NetworkError) (filter (fun q => snd q =? r) (outgoing_requests st))) = []).
+  { intros x. apply copies_fail_only. intros t m Hi. apply in_map_iff in Hi. destruct Hi as [p [Hp _]]. discriminate. }
+  assert (Hsub : forall e, In e (active_exchanges st') <-> In e (active_exchanges st) /\ e_remote e <> r).
+  { intros e. rewrite Ex, filter_In, negb_true_iff, Z.eqb_neq. reflexivity. }
+  pose proof (s_ex _ _ S) as Hex. rewrite Forall_forall in Hex.
+  split.
+  - intros x Hx. rewrite copies_app, Hc, app_nil_r. auto.
+  - intros x. destruct (Hg x) as (m & T0 & t & n & Hcp & Hn & Ht & Hb & Hcl). exists m, T0, t, n. splits; auto.
+    + rewrite copies_app, Hc, app_nil_r. exact Hcp.
+    + intros e He Hr. apply Hsub in He. apply Ht; tauto.
+    + intros Hi. apply Hb. unfold in_backlog in *. rewrite Eb in Hi. apply (count_occ_In Z.eq_dec) in Hi. apply (count_occ_In Z.eq_dec). pose proof (cnt_qdel_le (backlogs st) r x). lia.
+    + intros Hn0. destruct (Hcl Hn0) as [[e [He1 He2]]|[Hin|[Hin|[Hx [Hin|Hin]]]]].
+      * destruct (Z.eq_dec (e_remote e) r) as [Hr|Hr].
+        -- right. right. left. left. destruct (Ht e He1 He2) as (Hm & _). pose proof (Hex e He1) as Hok. unfold entry_ok in Hok. destruct Hok as (Hk & _).
+           unfold err_key. f_equal. rewrite <- Hr. unfold e_remote. rewrite Hk. cbn. rewrite Hm. reflexivity.
+        -- left. exists e. split; auto. apply Hsub. auto.
+      * right. left. right. exact Hin.
+      * right. right. left. right. exact Hin.
+      * right. right. right. split; auto. left. apply in_app_iff. auto.
+      * right. right. right. split; auto. right. right. exact Hin.
+Qed.
+
+Lemma hist_ks_mono : forall seen ks ks' st tr, Hist seen ks st tr -> incl ks ks' -> Hist seen ks' st tr.
+Proof.
+  intros seen ks ks' st tr Hh Hk. rewrite <- (app_nil_r tr). apply (hist_same_exch seen ks ks' st st tr [] Hh); auto.
+Qed.
+
+Lemma step_hist : forall seen ks st tr e st' o, Struct seen st -> Hist seen ks st tr -> Pend ks st -> wf_event seen e -> step st e = (st', o) ->
   Hist (seen_after seen e) (ks_after ks e) st' (tr ++ o).
 Proof.
-  intros seen ks st tr e st' o S Hh W H. destruct e as [rid r tn|r b mid|t| |]; cbn [step seen_after ks_after] in *.
+  intros seen ks st tr e st' o S Hh Hp W H. destruct e as [rid r tn|r b mid|t| | |r|rid|r ty mid rid|r on]; cbn [step seen_after ks_after] in *.
   - destruct W as [W1 W2]. eapply hist_request; eauto.
   - eapply hist_recv; eauto.
   - inv H. rewrite app_nil_r. exact Hh.
@@ -318,6 +378,15 @@ Proof.
     destruct (next_timer_facts _ _ N) as (e & He1 & He2 & Hmin).
     eapply hist_retransmit in H; eauto.
     pose proof (s_ex _ _ S) as Hex. rewrite Forall_forall in Hex. specialize (Hex e He1). unfold entry_ok in Hex. rewrite He2 in Hex. lia.
+  - eapply hist_error; eauto.
+  - inv H. apply (hist_same_exch seen ks _ st); auto. intros x Hx. right. exact Hx.
+  - destruct (response_shape _ _ _ _ _ _ _ _ S H) as (st1 & o1 & o2 & E1 & -> & S1 & Hn1 & En & Ex & Eb & Er & Enr & _ & _ & Hn2 & Hs2 & _).
+    assert (H1 : Hist seen ((r, mid) :: ks) st1 (tr ++ o1)).
+    { revert E1. destruct (ty =? 0); intros E1.
+      - apply (hist_recv seen ks st tr r mid false st1 o1 S Hh E1).
+      - inv E1. rewrite app_nil_r. apply (hist_ks_mono seen ks); auto. intros x Hx. right. exact Hx. }
+    rewrite app_assoc. apply (hist_same_exch seen ((r, mid) :: ks) _ st1); auto. intros x Hx. right. exact Hx.
+  - inv H. rewrite app_nil_r. exact Hh.
 Qed.
 
 (* ---- whole runs *)
@@ -327,27 +396,178 @@ Fixpoint seen_all (seen : list Z) (evs : list event) : list Z :=
   match evs with [] => seen | e :: r => seen_all (seen_after seen e) r end.
 Fixpoint ks_all (ks : list (Z * Z)) (evs : list event) : list (Z * Z) :=
   match evs with [] => ks | e :: r => ks_all (ks_after ks e) r end.
-(* the (remote, mid) pairs of the ACK / RST datagrams in an event list *)
-Definition recv_keys (evs : list event) : list (Z * Z) :=
-  flat_map (fun e => match e with ERecv r _ mid => [(r, mid)] | _ => [] end) evs.
+(* the (remote, mid) pairs of the ACK / RST / piggy-backed-response datagrams in an event list, [err_key r] for every transport
+   error reported for r, [gone_key rid] for every cancellation of / response to request rid *)
+Definition recv_keys (evs : list event) : list (Z * Z) := ks_all [] evs.
 
+Lemma ks_after_app : forall ks e, exists l, ks_after ks e = l ++ ks /\ forall ks', ks_after ks' e = l ++ ks'.
+Proof.
+  intros ks e. destruct e as [rid r tn|r b mid|t| | |r|rid|r ty mid rid|r on]; cbn;
+    [exists []|exists [(r, mid)]|exists []|exists []|exists []|exists [err_key r]|exists [gone_key rid]|exists [gone_key rid; (r, mid)]|exists []]; split; reflexivity.
+Qed.
 Lemma ks_all_in : forall evs ks k, In k (ks_all ks evs) -> In k ks \/ In k (recv_keys evs).
 Proof.
-  induction evs as [|e evs IH]; cbn; intros ks k H; auto. apply IH in H. destruct H as [H|H].
-  - destruct e; cbn in *; auto. destruct H as [H|H]; auto.
-  - right. apply in_app_iff. auto.
+  unfold recv_keys. induction evs as [|e evs IH]; cbn; intros ks k H; auto.
+  destruct (ks_after_app ks e) as [l [E1 E2]]. rewrite E1 in H. apply IH in H. destruct H as [H|H].
+  - apply in_app_iff in H. destruct H as [H|H]; auto. right.
+    assert (forall evs ks1 ks2, incl ks1 ks2 -> incl (ks_all ks1 evs) (ks_all ks2 evs)) as Hm.
+    { clear. induction evs as [|e evs IH]; cbn; intros ks1 ks2 Hi; auto. apply IH. destruct (ks_after_app ks1 e) as [l [E1 E2]]. rewrite E1, (E2 ks2).
+      intros x Hx. apply in_app_iff in Hx. apply in_app_iff. destruct Hx; auto. }
+    assert (forall evs ks, incl ks (ks_all ks evs)) as Hi.
+    { clear. induction evs as [|e evs IH]; cbn; intros ks x Hx; auto. apply IH. destruct (ks_after_app ks e) as [l [E1 _]]. rewrite E1. apply in_app_iff. auto. }
+    apply Hi. rewrite (E2 []). apply in_app_iff. auto.
+  - right. revert H. unfold recv_keys.
+    assert (forall evs ks1 ks2, incl ks1 ks2 -> incl (ks_all ks1 evs) (ks_all ks2 evs)) as Hm.
+    { clear. induction evs as [|e' evs IH]; cbn; intros ks1 ks2 Hi; auto. apply IH. destruct (ks_after_app ks1 e') as [l' [E1 E2]]. rewrite E1, (E2 ks2).
+      intros x Hx. apply in_app_iff in Hx. apply in_app_iff. destruct Hx; auto. }
+    apply Hm. intros x [].
 Qed.
 
-Lemma run_inv : forall evs seen ks st tr st' os, Struct seen st -> Hist seen ks st tr -> wf_events seen evs ->
-  run st evs = (st', os) ->
-  Struct (seen_all seen evs) st' /\ Hist (seen_all seen evs) (ks_all ks evs) st' (tr ++ concat os) /\ no_error (concat os).
+(* ---- requests stay pending while their message is in the message layer *)
+Lemma pend_mono : forall ks ks' st, Pend ks st -> incl ks ks' -> Pend ks' st.
 Proof.
-  induction evs as [|e evs IH]; intros seen ks st tr st' os S Hh W H; cbn in H.
+  intros ks ks' st [P1 P2] Hk. split.
+  - intros e He. destruct (P1 e He); auto.
+  - intros r q p Hq Hp. destruct (P2 r q p Hq Hp); auto.
+Qed.
+
+Lemma pend_recv : forall seen ks st r mid b st' o, Struct seen st -> Pend ks st -> _remove_exchange st r mid b = (st', o) ->
+  Pend ((r, mid) :: ks) st'.
+Proof.
+  intros seen ks st r mid b st' o S [P1 P2] H.
+  assert (Hmono : forall (ks' : list (Z * Z)) st', incl ks ks' ->
+            (forall e, In e (active_exchanges st') -> In e (active_exchanges st) /\
+                       (In (e_rid e, e_remote e) (outgoing_requests st) -> In (e_rid e, e_remote e) (outgoing_requests st') \/ In (gone_key (e_rid e)) ks')) ->
+            (forall r q p, In (r, q) (backlogs st') -> In p q -> (exists q0, In (r, q0) (backlogs st) /\ In p q0) /\
+                       (In (m_rid (fst p), r) (outgoing_requests st) -> In (m_rid (fst p), r) (outgoing_requests st') \/ In (gone_key (m_rid (fst p))) ks')) ->
+            Pend ks' st').
+  { intros ks' s' Hk H1 H2. split.
+    - intros x Hx. destruct (H1 x Hx) as [Hi Hk']. destruct (P1 x Hi) as [Ho|Hg]; auto.
+    - intros r0 q p Hq Hp. destruct (H2 r0 q p Hq Hp) as [[q0 [Hq0 Hp0]] Hk']. destruct (P2 r0 q0 p Hq0 Hp0) as [Ho|Hg]; auto. }
+  assert (True) as _ by exact I.
+  idtac.
+  { assert (Hk : incl ks ((r, mid) :: ks)) by (intros x Hx; right; exact Hx).
+    destruct (recv_shape _ _ _ _ _ _ _ S H) as [(X & -> & ->)|(mon & h & st2 & o1 & o2 & X & -> & _ & _ & En & Er & Es & Ex & Eb & Enr & Hkeep & _ & C)].
+    + apply Hmono; auto. intros r' q p Hq Hp. split; eauto.
+    + destruct (pop_facts seen st _ mon h S X) as (Hin & _ & _ & _ & _ & Hrest & Hbr & _). cbn [fst] in *.
+      change r with (fst (r, mid)) in C. apply (continue_after_pop seen st (r, mid) mon h st2 st' o2 S X En Er Ex Eb Enr) in C.
+      destruct C as (_ & _ & _ & Eo' & q & Q & Hq). cbn [fst] in *. pose proof (qget_in _ _ _ Q) as HQ.
+      destruct q as [|[m2 mon2] rest].
+      * destruct Hq as (_ & Ex' & Eb'). apply Hmono; auto.
+        -- intros e He. rewrite Ex' in He. destruct (Hrest e He) as (He1 & _ & He3). split; auto. intros Ho. left. rewrite Eo'. apply Hkeep; auto.
+        -- intros r' q' p Hq' Hp. rewrite Eb' in Hq'. apply in_qdel in Hq'. destruct Hq' as [Hq' _]. split; [eauto|].
+           intros Ho. left. rewrite Eo'. apply Hkeep; auto. cbn. apply Hbr. eapply in_back_rids; eauto.
+      * destruct Hq as (-> & Hr2 & _ & _ & t & _ & _ & Ex' & Eb'). split.
+        -- intros e He. rewrite Ex' in He. apply in_xset in He. destruct He as [->|[He _]].
+           ++ unfold e_rid, e_remote, e_timer. cbn. rewrite Hr2. destruct (P2 r _ (m2, m_rid m2) HQ (or_introl eq_refl)) as [Ho|Hg]; [left|right; right; exact Hg].
+              rewrite Eo'. apply Hkeep; auto. cbn. apply Hbr. apply (in_back_rids _ r _ (m2, m_rid m2) HQ). left. reflexivity.
+           ++ destruct (Hrest e He) as (He1 & _ & He3). destruct (P1 e He1) as [Ho|Hg]; [left|right; right; exact Hg]. rewrite Eo'. apply Hkeep; auto.
+        -- intros r' q' p Hq' Hp. rewrite Eb' in Hq'. apply in_qset in Hq'.
+           assert (exists q0, In (r', q0) (backlogs st) /\ In p q0) as [q0 [Hq0 Hp0]].
+           { destruct Hq' as [Hq'|[Hq' _]]; [inv Hq'; exists ((m2, m_rid m2) :: rest); split; auto; right; exact Hp | eauto]. }
+           destruct (P2 r' q0 p Hq0 Hp0) as [Ho|Hg]; [left|right; right; exact Hg]. rewrite Eo'. apply Hkeep; auto. cbn. apply Hbr. eapply in_back_rids; eauto. }
+Qed.
+
+Lemma step_pend : forall seen ks st e st' o, Struct seen st -> Pend ks st -> wf_event seen e -> step st e = (st', o) ->
+  Pend (ks_after ks e) st'.
+Proof.
+  intros seen ks st e st' o S [P1 P2] W H.
+  assert (Hmono : forall (ks' : list (Z * Z)) st', incl ks ks' ->
+            (forall e, In e (active_exchanges st') -> In e (active_exchanges st) /\
+                       (In (e_rid e, e_remote e) (outgoing_requests st) -> In (e_rid e, e_remote e) (outgoing_requests st') \/ In (gone_key (e_rid e)) ks')) ->
+            (forall r q p, In (r, q) (backlogs st') -> In p q -> (exists q0, In (r, q0) (backlogs st) /\ In p q0) /\
+                       (In (m_rid (fst p), r) (outgoing_requests st) -> In (m_rid (fst p), r) (outgoing_requests st') \/ In (gone_key (m_rid (fst p))) ks')) ->
+            Pend ks' st').
+  { intros ks' s' Hk H1 H2. split.
+    - intros x Hx. destruct (H1 x Hx) as [Hi Hk']. destruct (P1 x Hi) as [Ho|Hg]; auto.
+    - intros r0 q p Hq Hp. destruct (H2 r0 q p Hq Hp) as [[q0 [Hq0 Hp0]] Hk']. destruct (P2 r0 q0 p Hq0 Hp0) as [Ho|Hg]; auto. }
+  destruct e as [rid r tn|r b mid|t| | |r|rid|r ty mid rid|r on]; cbn [step ks_after] in *.
+  - destruct W as [W1 W2]. pose proof (request_shape _ _ _ _ _ _ _ S W1 W2 H) as Sh. cbv zeta in Sh.
+    destruct Sh as (Eo & [(q & Q & -> & Ex & Eb)|(Q & Hno & t & sq & Hrg & -> & Ex & Eb & Ebl)]).
+    + split.
+      * intros e He. rewrite Ex in He. destruct (P1 e He) as [Ho|Hg]; auto. left. rewrite Eo. apply in_app_iff. auto.
+      * intros r' q' p Hq Hp. rewrite Eb in Hq. apply in_qset in Hq. destruct Hq as [Hq|[Hq _]].
+        -- inv Hq. apply in_app_iff in Hp. destruct Hp as [Hp|[<-|[]]].
+           ++ destruct (P2 r q p (qget_in _ _ _ Q) Hp) as [Ho|Hg]; auto. left. rewrite Eo. apply in_app_iff. auto.
+           ++ left. rewrite Eo. apply in_app_iff. right. left. reflexivity.
+        -- destruct (P2 r' q' p Hq Hp) as [Ho|Hg]; auto. left. rewrite Eo. apply in_app_iff. auto.
+    + split.
+      * intros e He. rewrite Ex in He. apply in_xset in He. destruct He as [->|[He _]].
+        -- left. rewrite Eo. apply in_app_iff. right. left. reflexivity.
+        -- destruct (P1 e He) as [Ho|Hg]; auto. left. rewrite Eo. apply in_app_iff. auto.
+      * intros r' q' p Hq Hp. destruct (Ebl _ Hq) as [Hq'|Hq']; [|inv Hq'; inv Hp].
+        destruct (P2 r' q' p Hq' Hp) as [Ho|Hg]; auto. left. rewrite Eo. apply in_app_iff. auto.
+  - eapply pend_recv; eauto. split; auto.
+  - inv H. apply Hmono; [apply incl_refl| |]; cbn; intros; eauto.
+  - destruct (next_timer st) as [h|] eqn:N; [|inv H; split; auto].
+    destruct (next_timer_facts _ _ N) as (e & He1 & He2 & Hmin).
+    assert (S1 : Struct seen (set_now st (Z.max (now st) (h_due h)))) by (apply struct_set_now; auto).
+    pose proof (retransmit_struct _ _ _ _ _ _ S1 He1 He2 H) as Sh. cbv zeta in Sh. destruct Sh as (_ & _ & _ & X & Sh).
+    destruct (pop_facts seen _ _ _ h S1 X) as (Hin & _ & _ & _ & _ & Hrest & _). proj.
+    destruct Sh as [(_ & _ & Ex & Eb & Eo)|(_ & _ & Ex & Eb & Eo)]; proj.
+    + split.
+      * intros e' He'. rewrite Ex in He'. apply in_xset in He'. destruct He' as [->|[He' _]].
+        -- rewrite Eo. apply (P1 _ Hin).
+        -- rewrite Eo. apply P1. apply Hrest in He'. tauto.
+      * intros r' q' p Hq' Hp. rewrite Eb in Hq'. rewrite Eo. eauto.
+    + split.
+      * intros e' He'. rewrite Ex in He'. destruct (Hrest e' He') as (He1' & He2' & _). destruct (P1 e' He1') as [Ho|Hg]; auto. left. rewrite Eo.
+        apply filter_In. split; auto. cbn. apply negb_true_iff. apply Z.eqb_neq. exact He2'.
+      * intros r' q' p Hq' Hp. rewrite Eb in Hq'. apply in_qdel in Hq'. destruct Hq' as [Hq' Hne]. destruct (P2 r' q' p Hq' Hp) as [Ho|Hg]; auto. left. rewrite Eo.
+        apply filter_In. split; auto. cbn. apply negb_true_iff. apply Z.eqb_neq. exact Hne.
+  - destruct (next_timer st) as [h|] eqn:N; [|inv H; split; auto].
+    destruct (h_due h <=? now st) eqn:Hd; [|inv H; split; auto].
+    destruct (next_timer_facts _ _ N) as (e & He1 & He2 & Hmin).
+    pose proof (retransmit_struct _ _ _ _ _ _ S He1 He2 H) as Sh. cbv zeta in Sh. destruct Sh as (_ & _ & _ & X & Sh).
+    destruct (pop_facts seen _ _ _ h S X) as (Hin & _ & _ & _ & _ & Hrest & _). proj.
+    destruct Sh as [(_ & _ & Ex & Eb & Eo)|(_ & _ & Ex & Eb & Eo)]; proj.
+    + split.
+      * intros e' He'. rewrite Ex in He'. apply in_xset in He'. destruct He' as [->|[He' _]].
+        -- rewrite Eo. apply (P1 _ Hin).
+        -- rewrite Eo. apply P1. apply Hrest in He'. tauto.
+      * intros r' q' p Hq' Hp. rewrite Eb in Hq'. rewrite Eo. eauto.
+    + split.
+      * intros e' He'. rewrite Ex in He'. destruct (Hrest e' He') as (He1' & He2' & _). destruct (P1 e' He1') as [Ho|Hg]; auto. left. rewrite Eo.
+        apply filter_In. split; auto. cbn. apply negb_true_iff. apply Z.eqb_neq. exact He2'.
+      * intros r' q' p Hq' Hp. rewrite Eb in Hq'. apply in_qdel in Hq'. destruct Hq' as [Hq' Hne]. destruct (P2 r' q' p Hq' Hp) as [Ho|Hg]; auto. left. rewrite Eo.
+        apply filter_In. split; auto. cbn. apply negb_true_iff. apply Z.eqb_neq. exact Hne.
+  - destruct (error_struct _ _ _ _ _ S H) as (_ & _ & _ & Ex & Eb & Eo & _). apply Hmono; [intros x Hx; right; exact Hx| |].
+    + intros e He. rewrite Ex in He. apply filter_In in He. destruct He as [He Hr]. split; auto. intros Ho. left. rewrite Eo. apply filter_In. split; auto.
+    + intros r' q' p Hq' Hp. rewrite Eb in Hq'. apply in_qdel in Hq'. destruct Hq' as [Hq' Hne]. split; [eauto|]. intros Ho. left. rewrite Eo.
+      apply filter_In. split; auto. cbn. apply negb_true_iff. apply Z.eqb_neq. exact Hne.
+  - inv H. apply Hmono; [intros x Hx; right; exact Hx| |]; cbn.
+    + intros e He. split; auto. intros Ho. destruct (Z.eq_dec (e_rid e) rid) as [<-|Hne]; [right; left; reflexivity|left].
+      apply filter_In. split; auto. cbn. apply negb_true_iff. apply Z.eqb_neq. exact Hne.
+    + intros r' q' p Hq' Hp. split; [eauto|]. intros Ho. destruct (Z.eq_dec (m_rid (fst p)) rid) as [<-|Hne]; [right; left; reflexivity|left].
+      apply filter_In. split; auto. cbn. apply negb_true_iff. apply Z.eqb_neq. exact Hne.
+  - destruct (response_shape _ _ _ _ _ _ _ _ S H) as (st1 & o1 & o2 & E1 & -> & S1 & Hn1 & En & Ex & Eb & Er & Enr & Hinc & Hkeep & _).
+    assert (H1 : Pend ((r, mid) :: ks) st1).
+    { revert E1. destruct (ty =? 0); intros E1.
+      - apply (pend_recv seen ks st r mid false st1 o1 S (conj P1 P2) E1).
+      - inv E1. apply (pend_mono ks); [split; auto|]. intros x Hx. right. exact Hx. }
+    destruct H1 as [Q1 Q2]. split.
+    + intros e He. rewrite Ex in He. destruct (Q1 e He) as [Ho|Hg]; [|right; right; exact Hg].
+      destruct (Z.eq_dec (e_rid e) rid) as [<-|Hne]; [right; left; reflexivity|left; apply Hkeep; auto].
+    + intros r' q' p Hq' Hp. rewrite Eb in Hq'. destruct (Q2 r' q' p Hq' Hp) as [Ho|Hg]; [|right; right; exact Hg].
+      destruct (Z.eq_dec (m_rid (fst p)) rid) as [<-|Hne]; [right; left; reflexivity|left; apply Hkeep; auto].
+  - inv H. split; auto.
+Qed.
+
+Lemma run_inv : forall evs seen ks st tr st' os, Struct seen st -> Hist seen ks st tr -> Pend ks st -> wf_events seen evs ->
+  run st evs = (st', os) ->
+  Struct (seen_all seen evs) st' /\ Hist (seen_all seen evs) (ks_all ks evs) st' (tr ++ concat os) /\ no_error (concat os) /\
+  Pend (ks_all ks evs) st'.
+Proof.
+  induction evs as [|e evs IH]; intros seen ks st tr st' os S Hh Hp W H; cbn in H.
   - inv H. cbn. rewrite app_nil_r. splits; auto. apply no_error_nil.
   - destruct (step st e) as [st1 o] eqn:E. destruct (run st1 evs) as [st2 os2] eqn:R. inv H. destruct W as [W1 W2].
-    destruct (step_struct _ _ _ _ _ S W1 E) as [S1 Hn1]. pose proof (step_hist _ _ _ _ _ _ _ S Hh W1 E) as Hh1.
-    destruct (IH _ _ _ _ _ _ S1 Hh1 W2 R) as (S2 & Hh2 & Hn2). cbn. rewrite app_assoc. splits; auto. apply no_error_app; auto.
+    destruct (step_struct _ _ _ _ _ S W1 E) as [S1 Hn1]. pose proof (step_hist _ _ _ _ _ _ _ S Hh Hp W1 E) as Hh1.
+    pose proof (step_pend _ _ _ _ _ _ S Hp W1 E) as Hp1.
+    destruct (IH _ _ _ _ _ _ S1 Hh1 Hp1 W2 R) as (S2 & Hh2 & Hn2 & Hp2). cbn. rewrite app_assoc. splits; auto. apply no_error_app; auto.
 Qed.
+
+Lemma pend_init : forall mid0 draws, Pend [] (init mid0 draws).
+Proof. intros. split; cbn; intros; tauto. Qed.
 
 Lemma hist_init : forall mid0 draws, Hist [] [] (init mid0 draws) [].
 Proof.
